@@ -270,6 +270,41 @@ func init() {
 			p.Records = in.ReadBytes(in.Available())
 			p.GetRecords()
 		}})
+	// a compressed log-sink batch: the payload is inflated by GetRecords, not by ToPack (seed C04-s23: buffer sized from
+	// the gzip trailer). The accessor answers a payload it cannot inflate or decode with fewer records than announced;
+	// that is its way of reporting failure.
+	addTarget(&Target{Name: "records:LogSinkZipPack(zipped)",
+		Build: func(s *rfl.Stream) []byte {
+			n := 1 + s.LenSmall(4)
+			var raw []byte
+			for i := 0; i < n; i++ {
+				raw = append(raw, pack.ToBytesPack(gpack.ByName["LogSinkPack"].Build(s, 1))...)
+			}
+			p := pack.NewLogSinkZipPack()
+			p.RecordCount = n
+			p.SetRecords(raw, 0)
+			if p.Status != pack.ZIPPED {
+				panic("harness: batch was not compressed")
+			}
+			w := ref.NewW()
+			w.Dec(int64(n))
+			w.Raw(p.Records)
+			return w.B
+		},
+		ExpansionFactor: 64,
+		Decode: func(b []byte) {
+			in := wio.NewDataInputX(b)
+			p := pack.NewLogSinkZipPack()
+			p.RecordCount = int(in.ReadDecimal())
+			p.Records = in.ReadBytes(in.Available())
+			p.Status = pack.ZIPPED
+			if p.RecordCount < 0 || p.RecordCount > 1<<20 {
+				panic("record count outside what the batch can hold")
+			}
+			if got := len(p.GetRecords()); got != p.RecordCount {
+				panic(fmt.Sprintf("GetRecords returned %d of %d announced records", got, p.RecordCount))
+			}
+		}})
 	addTarget(&Target{Name: "intintmap",
 		Build: func(s *rfl.Stream) []byte {
 			m := hmap.NewIntIntMapDefault()
